@@ -418,6 +418,7 @@ class TaurexChemistry(AutoChemistry):
         elif hasattr(self._fill_gases, '__len__'):
             gas_entry.write_array('ratio', np.array(self._fill_ratio))
         gas_entry.write_string_array('fill_gases', self._fill_gases)
+        gas_entry.write_scalar('base_metallicty', self._base_metallicity)
         for gas in self._gases:
             gas.write(gas_entry)
 
